@@ -30,6 +30,13 @@ Definition acked_class (p : cpc) : bool :=
          | _, _ => false
          end
   end.
+Definition ctx_phase (p : cpc) : bool :=
+  match p with
+  | PWaitCtx | PNop | PDropped => true
+  | _ => match pc_ret p with Some RCtx => true | _ => false end
+  end.
+Definition pre_entered (p : cpc) : bool :=
+  match p with PIdle | PReturned RRejected => true | _ => false end.
 Definition drops_of (k : call) : Z :=
   match pc k with
   | PDropped => 1
@@ -52,7 +59,8 @@ Record LI (mx : Z) (k : call) : Prop := mkLI {
   li_left : after_loop (pc k) = false -> leftloop k = false;
   li_v26 : viol26 k = false;
   li_unacked : unacked_pc (pc k) = true -> snap26 k = false;
-  li_acked : acked_class (pc k) = true -> deliv k || sendcanc k = true;
+  li_acked : acked_class (pc k) = true -> deliv k = true;
+  li_sendcanc : sendcanc k = true -> deliv k = true;
   li_drops : ndrops k = drops_of k;
   li_finalctx : pc k <> PFinal RCtx;
   li_resok : is_result (res k) = true;
@@ -66,7 +74,21 @@ Record LI (mx : Z) (k : call) : Prop := mkLI {
   li_result : match pc_ret (pc k) with Some r => is_result r = true -> done k = true /\ res k = r | None => True end;
   li_await : match pc k with PAwait _ => hc k = true | _ => True end;
   li_sent : match pc k with PNop | PDropped => sent k = true | _ => True end;
-  li_selfpc : settled_pc (pc k) = false -> selfclaim k = false
+  li_selfpc : settled_pc (pc k) = false -> selfclaim k = false;
+  li_timer : match pc k with
+             | PSelect => armed k || tval k = true
+             | PSentGo => tmade k = true -> armed k || tval k = true
+             | _ => True
+             end;
+  li_tmade : pre_send (pc k) = true -> tmade k = false;
+  li_ctx : ctx_phase (pc k) = true -> ucancel k = true;
+  li_entered : entered k = false -> pre_entered (pc k) = true;
+  li_entered1 : pc k = PIdle -> entered k = false;
+  li_rejected : pc_ret (pc k) = Some RRejected -> entered k = false /\ is_returned (pc k) = true;
+  li_retryable : match pc k with
+                 | PSettled RClosedRetryable | PReturned RClosedRetryable => selfclaim k = true
+                 | _ => True
+                 end
 }.
 
 Lemma LI_call0 : forall mx, 1 <= mx -> LI mx call0.
@@ -116,6 +138,7 @@ Ltac fin :=
         | match goal with k : call |- _ => destruct (res k) eqn:?; simp; close end
         | match goal with r : retv |- _ => destruct r; simp; close end
         | match goal with k : call |- _ => destruct (pc k) eqn:?; simp; close end
+        | match goal with r : retv, k : call |- _ => destruct r; simp; try close; destruct (res k) eqn:?; simp; close end
         | idtac ].
 
 Lemma caller_LI : forall mx fc ec af c k e k' g,
@@ -139,6 +162,16 @@ Lemma LI_write : forall mx k v m, LI mx k -> hc k = true -> selfclaim k = false 
                     (isobad k || negb (Z.eqb m (mid k)))).
 Proof.
   intros mx k v m HL Hh Hs He Hw Hd Hm; subst m; rewrite Z.eqb_refl.
+  assert (is_returned (pc k) = false).
+  { destruct (pc k) eqn:E; try reflexivity. destruct HL. rewrite E in *. cbn in *. intuition congruence. }
+  destruct HL; unfold drops_of in *; constructor; cbn; intros; fin.
+Qed.
+
+Lemma LI_touch : forall mx k m, LI mx k -> hc k = true -> selfclaim k = false -> everreg k = true ->
+  writer k <> None -> done k = false -> m = mid k ->
+  LI mx (set_isobad (set_late k (late k || is_returned (pc k))) (isobad k || negb (Z.eqb m (mid k)))).
+Proof.
+  intros mx k m HL Hh Hs He Hw Hd Hm; subst m; rewrite Z.eqb_refl.
   assert (is_returned (pc k) = false).
   { destruct (pc k) eqn:E; try reflexivity. destruct HL. rewrite E in *. cbn in *. intuition congruence. }
   destruct HL; unfold drops_of in *; constructor; cbn; intros; fin.
@@ -423,11 +456,11 @@ Proof.
     + destruct (Hoth x n) as [O1 O2]. intros [A | [ok A]]; [destruct (O1 A) | destruct (O2 _ A)].
 Qed.
 
-Lemma GI_calls_soft : forall mx s cs' am' fc ec,
+Lemma GI_calls_soft : forall mx s cs' am' fc ec us,
   GI mx s -> (forall c, LI mx (cs' c)) -> (forall c, core_pres (calls s c) (cs' c)) ->
-  GI mx (mkState cs' (dels s) (rpcm s) am' fc ec (maxr s)).
+  GI mx (mkState cs' (dels s) (rpcm s) am' fc ec (maxr s) us).
 Proof.
-  intros mx s cs' am' fc ec [Gm Gl Gd Gr Gw] HL HC. constructor; auto.
+  intros mx s cs' am' fc ec us [Gm Gl Gd Gr Gw] HL HC. constructor; auto.
   - intros d. apply DI_frame with (s := s); auto.
   - intros m c Hm. cbn in Hm. destruct (Gr _ _ Hm) as [R1 R2].
     destruct (HC c) as [A _]. destruct (A R2). cbn. split; congruence.
@@ -470,8 +503,11 @@ Proof.
   intros mx s e s' Hmx HG H. unfold step in H.
   destruct (ev_caller e) as [c|] eqn:Ec.
   { destruct (caller (maxr s) (fclosed s) (eclosed s) (isNone (ackm s (mid (calls s c)))) c (calls s c) e)
-      as [[k' g]|] eqn:Hc; inversion H; subst.
-    eapply step_caller_GI; eauto. intros m h ->. eapply caller_geff; eauto. }
+      as [[k' g]|] eqn:Hc; try discriminate H.
+    assert (HG' : GI mx (apply_geff s c k' g)).
+    { eapply step_caller_GI; eauto. intros m h ->. eapply caller_geff; eauto. }
+    destruct e; inversion H; subst; auto.
+    destruct (used s m); inversion H; subst. destruct HG'. constructor; auto. }
   pose proof HG as [Gm Gl Gd Gr Gw].
   destruct e; try discriminate Ec; cbv zeta in H.
   - (* NLookup *)
@@ -526,9 +562,12 @@ Proof.
         repeat split; eauto; congruence.
     + destruct (Z.eqb_spec c c0); cbn in H; try discriminate H. subst c0.
       destruct ok; cbn in H; inversion H; subst; clear H.
-      apply GI_move; auto; try congruence.
-      { intros c0 [A | [ok A]]; [right; exists false; congruence | congruence]. }
-      unfold DI. ups. repeat split; auto.
+      apply GI_handler; auto; try congruence.
+      * apply LI_touch; auto; congruence.
+      * intros c' Hn. rewrite Ed. split; intros; congruence.
+      * unfold DI. ups. repeat split; auto.
+      * unfold WI. ups. intros _ _. exists d. ups. rewrite D5.
+        repeat split; eauto; congruence.
   - (* NDoneClosed *)
     destruct (dpcv (dels s d)) eqn:Ed; try discriminate H.
     + (* DClaimed, PErr *)
@@ -746,8 +785,8 @@ Proof.
            unfold drank. cbn. rewrite !upd_eq. cbn. rewrite Epc, Ed, W1, upd_eq. cbn. rewrite W4, Epay. unfold rank; lia.
         -- exists (NDecode d c false 0). eexists. split; [reflexivity|].
            split; [unfold step; cbn [ev_caller]; cbv zeta; rewrite W4, Epay, !Z.eqb_refl; reflexivity|].
-           split; [cbn; auto|]. split; [cbn; rewrite Epc; discriminate|].
-           unfold drank. cbn. rewrite Epc, Ed, W1, upd_eq. cbn. rewrite W4, Epay. unfold rank; lia.
+           split; [cbn; auto|]. split; [cbn; rewrite !upd_eq; cbn; rewrite Epc; discriminate|].
+           unfold drank. cbn. rewrite !upd_eq. cbn. rewrite Epc, Ed, W1, upd_eq. cbn. rewrite W4, Epay. unfold rank; lia.
         -- exists (NDoneClosed d c). eexists. split; [reflexivity|].
            split; [unfold step; cbn [ev_caller]; cbv zeta; rewrite W4, Epay, !Z.eqb_refl; reflexivity|].
            split; [cbn; auto|]. split; [cbn; rewrite !upd_eq; cbn; rewrite Epc; discriminate|].
@@ -779,12 +818,25 @@ Proof.
   repeat split; auto; discriminate.
 Qed.
 
+Lemma post_shape : forall (s s1 s' : state) (e : ev),
+  match e with
+  | CEntered _ m _ _ => if used s m then None else Some (mark_used s1 m)
+  | _ => Some s1
+  end = Some s' ->
+  calls s' = calls s1 /\ dels s' = dels s1 /\ rpcm s' = rpcm s1 /\ ackm s' = ackm s1 /\
+  fclosed s' = fclosed s1 /\ eclosed s' = eclosed s1 /\ maxr s' = maxr s1.
+Proof.
+  intros s s1 s' e H. destruct e; try (inversion H; subst; repeat split; reflexivity).
+  destruct (used s m); inversion H; subst. repeat split; reflexivity.
+Qed.
+
 Lemma step_ident : forall s e s' c, step s e = Some s' -> ident_pres (calls s c) (calls s' c).
 Proof.
   intros s e s' c H. unfold step in H.
   destruct (ev_caller e) as [c0|] eqn:Ec.
   { destruct (caller (maxr s) (fclosed s) (eclosed s) (isNone (ackm s (mid (calls s c0)))) c0 (calls s c0) e)
-      as [[k' g]|] eqn:Hc; inversion H; subst.
+      as [[k' g]|] eqn:Hc; try discriminate H.
+    destruct (post_shape _ _ _ _ H) as (A & _). rewrite A.
     rewrite calls_apply. destruct (Z.eqb_spec c c0); subst; [eapply caller_ident; eauto | intros ?; auto]. }
   assert (R : forall k, ident_pres k k) by (intros k Hn; auto).
   destruct e; try discriminate Ec; cbv zeta in H;
@@ -885,23 +937,28 @@ Proof.
   exists d. repeat split; auto. congruence.
 Qed.
 
-Lemma c24_write : forall mx s1 s2 d c v, 1 <= mx -> reach mx s1 ->
-  step s1 (NDecode d c true v) = Some s2 ->
-  dmid (dels s1 d) = mid (calls s1 c) /\ dpay (dels s1 d) = PRes v /\
-  is_returned (pc (calls s1 c)) = false.
+Lemma c24_write : forall mx s1 s2 d c ok v, 1 <= mx -> reach mx s1 ->
+  step s1 (NDecode d c ok v) = Some s2 ->
+  dmid (dels s1 d) = mid (calls s1 c) /\ settled_pc (pc (calls s1 c)) = false /\
+  is_returned (pc (calls s1 c)) = false /\
+  (if ok then dpay (dels s1 d) = PRes v else dpay (dels s1 d) = PBad).
 Proof.
-  intros mx s1 s2 d c v Hmx HR H. pose proof (reach_GI _ _ Hmx HR) as [_ Gl Gd _ _].
+  intros mx s1 s2 d c ok v Hmx HR H. pose proof (reach_GI _ _ Hmx HR) as [_ Gl Gd _ _].
   unfold step in H. cbn [ev_caller] in H. cbv zeta in H.
   destruct (dpcv (dels s1 d)) eqn:Ed; try discriminate H.
   pose proof (Gd d) as D. unfold DI in D. rewrite Ed in D. cbv zeta in D.
   destruct D as (D1 & D2 & D3 & D4 & D5 & D6 & D7).
+  assert (S : settled_pc (pc (calls s1 c0)) = false).
+  { destruct (settled_pc (pc (calls s1 c0))) eqn:E; auto.
+    destruct (li_settled _ _ (Gl c0) E D2) as [_ [W | W]]; congruence. }
+  assert (R : is_returned (pc (calls s1 c0)) = false).
+  { destruct (pc (calls s1 c0)); cbn in *; congruence. }
   destruct (dpay (dels s1 d)) as [v'| |code] eqn:Ep; try discriminate H.
   - destruct (Z.eqb_spec c c0); cbn in H; try discriminate H. subst c0.
-    destruct (Z.eqb_spec v v'); try discriminate H. subst v'.
-    repeat split; auto.
-    destruct (pc (calls s1 c)) eqn:Epc; auto.
-    pose proof (li_settled _ _ (Gl c)) as LS. rewrite Epc in LS. destruct (LS eq_refl D2) as [_ [W | W]]; congruence.
-  - destruct (Z.eqb_spec c c0); cbn in H; discriminate H.
+    destruct ok; cbn in H; try discriminate H.
+    destruct (Z.eqb_spec v v'); try discriminate H. subst v'. repeat split; auto.
+  - destruct (Z.eqb_spec c c0); cbn in H; try discriminate H. subst c0.
+    destruct ok; cbn in H; try discriminate H. repeat split; auto.
 Qed.
 
 Lemma c24_ghosts : forall mx s c, 1 <= mx -> reach mx s -> late (calls s c) = false /\ isobad (calls s c) = false.
@@ -948,6 +1005,25 @@ Proof.
   repeat split; try apply HL; auto. symmetry; apply HL.
 Qed.
 
+Lemma c25_retransmits : forall mx s c, 1 <= mx -> reach mx s ->
+  (pc (calls s c) = PSelect -> armed (calls s c) || tval (calls s c) = true) /\
+  (pc (calls s c) = PSelect -> tval (calls s c) = true -> exists s', step s (CSelTimer c) = Some s') /\
+  (pc (calls s c) = PSelTimer -> ackclosed (calls s c) = false -> rcancel (calls s c) = false ->
+     exists s1 s2, step s (CTimerGo c) = Some s1 /\
+       step s1 (CSend c (mid (calls s c)) (seq (calls s c)) (body (calls s c)) 0) = Some s2 /\
+       nsends (calls s2 c) = nsends (calls s c) + 1).
+Proof.
+  intros mx s c Hmx HR. pose proof (reach_GI _ _ Hmx HR) as [_ Gl _ _ _]. pose proof (Gl c) as HL.
+  repeat split.
+  - intros Hpc. pose proof (li_timer _ _ HL) as T. rewrite Hpc in T. auto.
+  - intros Hpc Ht. eexists. unfold step. cbn [ev_caller]. cbv zeta. cbn [caller]. rewrite Hpc, Ht. reflexivity.
+  - intros Hpc Ha Hr.
+    destruct (Z.geb (retries (calls s c) + 1) (maxr s)) eqn:Eg;
+    (eexists; eexists; split;
+     [unfold step; cbn [ev_caller]; cbv zeta; cbn [caller]; rewrite Hpc, Ha, Hr; reflexivity|];
+     cbn; rewrite ?upd_eq; cbn; rewrite !Z.eqb_refl; cbn; rewrite Eg; cbn; rewrite ?upd_eq; cbn; split; [reflexivity | cbn; rewrite ?upd_eq; reflexivity]).
+Qed.
+
 (* C26 *)
 Lemma c26_progress : forall mx s c, 1 <= mx -> reach mx s -> fclosed s = true ->
   pending (pc (calls s c)) = true ->
@@ -961,13 +1037,17 @@ Qed.
 
 Lemma c26_class : forall mx s c, 1 <= mx -> reach mx s ->
   viol26 (calls s c) = false /\
-  (pc (calls s c) = PReturned RClosedRetryable -> snap26 (calls s c) = false) /\
-  (pc (calls s c) = PReturned RClosedAcked -> deliv (calls s c) = true \/ sendcanc (calls s c) = true).
+  (pc (calls s c) = PReturned RClosedRetryable ->
+     snap26 (calls s c) = false /\ selfclaim (calls s c) = true /\ writer (calls s c) = None /\
+     nwrites (calls s c) = 0 /\ done (calls s c) = false) /\
+  (pc (calls s c) = PReturned RClosedAcked -> deliv (calls s c) = true).
 Proof.
   intros mx s c Hmx HR. pose proof (reach_GI _ _ Hmx HR) as [_ Gl _ _ _]. pose proof (Gl c) as HL.
-  repeat split; try apply HL.
-  - intros Hpc. apply (li_unacked _ _ HL). rewrite Hpc. reflexivity.
-  - intros Hpc. apply orb_true_iff. apply (li_acked _ _ HL). rewrite Hpc. reflexivity.
+  split; [apply (li_v26 _ _ HL)|]. split.
+  - intros Hpc. pose proof (li_retryable _ _ HL) as R. rewrite Hpc in R.
+    destruct (li_self _ _ HL R) as (S1 & S2 & S3).
+    repeat split; auto. apply (li_unacked _ _ HL). rewrite Hpc. reflexivity.
+  - intros Hpc. apply (li_acked _ _ HL). rewrite Hpc. reflexivity.
 Qed.
 
 Lemma c26_drop : forall mx s c r, 1 <= mx -> reach mx s -> pc (calls s c) = PReturned r ->
